@@ -1015,7 +1015,13 @@ func FindSequenceOnDiskPad(pattern string, padStyle PadStyle, opts ...FileOption
 		return nil, nil
 	}
 
-	seqs, err := findSequencesOnDisk(fs.Dirname(), &findSeqOptions{FileOptions: optsCopy, SeqTemplate: fs})
+	// A pattern without a directory part names files of the working directory
+	dir := fs.Dirname()
+	if dir == "" {
+		dir = "."
+	}
+
+	seqs, err := findSequencesOnDisk(dir, &findSeqOptions{FileOptions: optsCopy, SeqTemplate: fs})
 	if err != nil {
 		return nil, fmt.Errorf("failed to find %q: %s", pattern, err.Error())
 	}
